@@ -16,6 +16,21 @@ CHECKS = {
     ),
 }
 
+CHECKS["C02"] = (
+    "fault_enumeration",
+    "deviation-bounded exhaustive fault enumeration (0, 1 and header-region 2 deviations from 16 independently built seed streams; all strings <= 2 bytes) through the real validator and its error-reporting methods",
+    "Every truncation, byte substitution/deletion/insertion, parse code, parse-offset and field-aware re-encoding of every coded field (and pairs of header-field substitutions / bit-flip pairs in the first bytes) of 16 seed streams is run through the real parse_stream; the verdict must be accept or ConformanceError and explain/offending_offset/bitstream_viewer_hint must succeed. Exhaustive for the stated deviation sets; non-vacuity: >= 50 distinct error classes must be reached.",
+    "Seeds come from an independent builder (build/vc2build.py), self-checked against the validator. Streams declaring sizes above the resource bound are set aside. Watchdog 20 s per execution.",
+    "DESIGN.md 6/C02",
+)
+CHECKS["C06"] = (
+    "fault_enumeration",
+    "deviation-bounded exhaustive fault enumeration through the real Deserialiser then Serialiser; byte-for-byte and description equality on every input that parses to completion",
+    "The C02 deviation corpus plus builder streams with dangling bounded-block bits, non-zero alignment padding, clamped LD slice lengths, unknown indices and padding/auxiliary offsets 0..14 (and their 1-byte substitutions): every input the deserialiser parses to completion must re-serialise to identical bytes and re-deserialise to an equal description.",
+    "Only inputs parsed without exception are in scope (about 40% of the corpus); resource monitor on declared sizes.",
+    "DESIGN.md 6/C06",
+)
+
 NOT_YET = "check not built yet in this revision (planned, see DESIGN.md section 6)"
 
 
